@@ -78,6 +78,9 @@ type State struct {
 	decrVals   map[string]Term
 	retSite    ssa.Instruction
 	callRes    map[string][]Term // results of calls on this path, by site name ("call.Recv#1")
+	lockSnap   map[string]map[string]Term // monitor key+owner -> heap at the last Lock
+	lastLock   map[string]Term            // heap right after the most recent monitor Lock
+	loopFrames []string                   // "loopOrd|heapvar": automatic frame invariants in force
 }
 
 type arrInfo struct {
@@ -88,7 +91,7 @@ type arrInfo struct {
 
 func (st *State) clone() *State {
 	n := &State{fx: st.fx, alloc: st.alloc, dead: st.dead, entryHeap: st.entryHeap, callDepth: st.callDepth,
-		deferStack: st.deferStack, dargs: st.dargs, decrVals: st.decrVals, retSite: st.retSite, callRes: st.callRes}
+		deferStack: st.deferStack, dargs: st.dargs, decrVals: st.decrVals, retSite: st.retSite, callRes: st.callRes, lockSnap: st.lockSnap, lastLock: st.lastLock, loopFrames: st.loopFrames}
 	n.vals = make(map[ssa.Value]Term, len(st.vals))
 	for k, v := range st.vals {
 		n.vals[k] = v
